@@ -50,6 +50,10 @@ structure HC where
   addr : Bytes
   isTLS : Bool
   pool : List Nat   -- idle connections, most recently released last (LIFO)
+  /-- cachedTLSConfig(addr) succeeds: a TLS server name can be derived from the address, or TLSConfig names one, or
+      InsecureSkipVerify is set.  A property of the address and the configuration, NOT of earlier calls: a failed
+      lookup is not cached, so it fails on every call. -/
+  cfgOk : Bool := true
   deriving DecidableEq, Repr
 
 structure St where
@@ -78,7 +82,9 @@ def hcDo (dialOk : Bytes → Bool) (s : St) (i : Nat) (scheme : Bytes) (keep : B
         let pool := if keep then hc.pool else hc.pool.dropLast
         ({ s with hcs := s.hcs.set i { hc with pool := pool } }, .wrote id)
       | none =>
-        if !dialOk hc.addr then (s, .err)
+        -- dialHostHard: for IsTLS the config lookup comes first; its failure is an error and nothing is dialled.
+        -- dialAddr then wraps the dialled connection in TLS iff isTLS - the config plays no part in that decision.
+        if (hc.isTLS && !hc.cfgOk) || !dialOk hc.addr then (s, .err)
         else
           let id := s.conns.length
           let pool := if keep then [id] else []
@@ -90,7 +96,7 @@ def lookup (k : Bytes) : List (Bytes × Nat) → Option Nat
   | (k', v) :: rest => if k' == k then some v else lookup k rest
 
 /-- Client.Do: scheme test, choice of `m` / `ms`, HostClient creation, then HostClient.Do -/
-def clientDo (dialOk : Bytes → Bool) (s : St) (scheme host : Bytes) (keep : Bool) : St × Res :=
+def clientDo (dialOk : Bytes → Bool) (s : St) (scheme host : Bytes) (keep : Bool) (cfgOk : Bool := true) : St × Res :=
   if host.contains 44 then (s, .err)
   else if !isHTTPS scheme && !isHTTP scheme then (s, .err)
   else
@@ -99,21 +105,21 @@ def clientDo (dialOk : Bytes → Bool) (s : St) (scheme host : Bytes) (keep : Bo
     | some i => hcDo dialOk s i scheme keep
     | none =>
       let i := s.hcs.length
-      let hc : HC := ⟨addMissingPort host isTLS, isTLS, []⟩
+      let hc : HC := ⟨addMissingPort host isTLS, isTLS, [], cfgOk⟩
       let s' : St := if isTLS then { s with hcs := s.hcs ++ [hc], ms := (host, i) :: s.ms }
                      else { s with hcs := s.hcs ++ [hc], m := (host, i) :: s.m }
       hcDo dialOk s' i scheme keep
 
 /-- what the harness does -/
 inductive Op
-  | newHC (addr : Bytes) (isTLS : Bool)                         -- a caller-made HostClient
-  | client (scheme host : Bytes) (keep : Bool)                  -- Client.Do (also every hop of Client.DoRedirects)
+  | newHC (addr : Bytes) (isTLS : Bool) (cfgOk : Bool := true)  -- a caller-made HostClient
+  | client (scheme host : Bytes) (keep : Bool) (cfgOk : Bool := true)   -- Client.Do (also every hop of Client.DoRedirects); cfgOk: of the HostClient it may create
   | host (i : Nat) (scheme : Bytes) (keep : Bool)               -- HostClient.Do on hcs[i] (also every hop of HostClient.DoRedirects, and LBClient after its choice of i)
   deriving DecidableEq, Repr
 
 def step (dialOk : Bytes → Bool) (s : St) : Op → St × Option Res
-  | .newHC addr isTLS => ({ s with hcs := s.hcs ++ [⟨addr, isTLS, []⟩] }, none)
-  | .client scheme host keep => let r := clientDo dialOk s scheme host keep; (r.1, some r.2)
+  | .newHC addr isTLS cfgOk => ({ s with hcs := s.hcs ++ [⟨addr, isTLS, [], cfgOk⟩] }, none)
+  | .client scheme host keep cfgOk => let r := clientDo dialOk s scheme host keep cfgOk; (r.1, some r.2)
   | .host i scheme keep => let r := hcDo dialOk s i scheme keep; (r.1, some r.2)
 
 /-- run a list of operations, collecting (operation, result, state after) -/
